@@ -95,8 +95,11 @@ func (e *xmlEncoder) Encode(writer io.Writer, node *CandidateNode) error {
 		return fmt.Errorf("cannot encode %v to XML - only maps can be encoded", node.Tag)
 	}
 
-	return encoder.EncodeToken(newLine)
-
+	if err := encoder.EncodeToken(newLine); err != nil {
+		return err
+	}
+	// the xml encoder buffers on its own unless the destination already is a bufio.Writer
+	return encoder.Flush()
 }
 
 func (e *xmlEncoder) encodeTopLevelMap(encoder *xml.Encoder, node *CandidateNode) error {
